@@ -489,8 +489,21 @@ fn rule_digest(sp: &RuleSpec) -> Option<u64> {
     let mut acc: Vec<u64> = vec![];
     let docs = gen::docs_for(sp, 1, 60);
     for sw in [0u8, 0b1111, 0b1110, 0b1010, 0b0100] {
-        let o = r.clone().optimise(eng::opts(sw));
-        let bits: String = docs.iter().map(|d| if o.matches(d) { '1' } else { '0' }).collect();
+        let o = match eng::optimise_with(&r, sw, &[]) {
+            Ok((o, _)) => o,
+            Err(_) => {
+                acc.push(0xdead);
+                continue;
+            }
+        };
+        let bits: String = docs
+            .iter()
+            .map(|d| match eng::matches(&o, d) {
+                Ok(true) => '1',
+                Ok(false) => '0',
+                Err(_) => 'P',
+            })
+            .collect();
         acc.push(stable_hash(&(eng::canon(&o), bits, format!("{}", o.detection.expression))));
         // serialised form is part of what a user can observe
         acc.push(stable_hash(&serde_yaml::to_string(&o).map(|t| {
